@@ -231,6 +231,7 @@ func TestMSLReferences(t *testing.T) {
 		"void chain(thread int& x) { inc(x, 2); inc(x, 3); }\n" +
 		"void swap(thread int& a, thread int& b) { int t = a; a = b; b = t; }\n" +
 		"void byval(int x) { x = 5; }\n" +
+		"void wr1(device uint& x) { x = 1u; }\n" +
 		"void fill(thread W& w) { for (int i = 0; i < 3; i = i + 1) { w.inner[i] = i * i; } }\n" +
 		"int sum(W w) { w.inner[0] = 100; return w.inner[0] + w.inner[1] + w.inner[2]; }\n"
 	pre := "  int a = 1;\n  inc(a, 4);\n  metal::int3 v = metal::int3(1, 2, 3);\n  setv(v, 2);\n  wr(o, 20u, 77u);\n" +
@@ -251,11 +252,14 @@ func TestMSLReferences(t *testing.T) {
 		{"static_cast<uint>(l0 * 10 + l1) + sel", uint32(70)},
 	})
 	for _, bad := range []struct{ pre, code string }{
-		{"  inc(5, 1);\n", "lvalue"},                      // rvalue to a non-const reference
-		{"  uint u = 1u;\n  inc(u, 1);\n", "no-overload"}, // thread int& does not bind a uint
-		{"  in.uv[0] = 1u;\n", "lvalue"},                  // through a reference to const
-		{"  int k = rd(in);\n", "no-overload"},            // arity
-		{"  const int k = 1;\n  inc(k, 1);\n", "lvalue"},  // const object
+		{"  inc(5, 1);\n", "lvalue"},                       // rvalue to a non-const reference
+		{"  uint u = 1u;\n  inc(u, 1);\n", "no-overload"},  // thread int& does not bind a uint
+		{"  in.uv[0] = 1u;\n", "lvalue"},                   // through a reference to const
+		{"  int k = rd(in);\n", "no-overload"},             // arity
+		{"  const int k = 1;\n  inc(k, 1);\n", "lvalue"},   // const object
+		{"  threadgroup int tg;\n  inc(tg, 1);\n", "type"}, // thread int& cannot bind a threadgroup object
+		{"  uint u = 0u;\n  wr1(u);\n", "type"},            // device uint& cannot bind a thread object
+		{"  chain(in.iv[0]);\n", "lvalue"},                 // reference to const
 	} {
 		code, err := parseErrMSL(mslExprShader(decls, bad.pre, []string{"0u"}))
 		if code != bad.code {
